@@ -38,7 +38,7 @@ pub fn def() -> PropDef {
         rule: "split-histories: a generated prefix of operations on one OwningIovec, then clone() (after filling outstanding placeholders; skipped if one is still pending, as the property requires) or take() (with or without pending placeholders, whose tokens follow the taken value in the model), then a generated suffix whose operations are spread over both sides, optionally dropping one side part-way. Each side has its own pipe model and both are compared with their models after every operation (so a write through one side that shows up in the other is a mismatch), with the live-chunk registry and quarantine on (a side that frees memory the other still exposes is caught by address and by poison); the source of a take() must be empty (total_size 0, iovs() Ok(empty)) and stays usable; backfills on the taken value must land at the right offsets. memory-histories adds clone/take/drop-heavy general histories. Non-trivial: both sides received >= 1 mutating operation after the split, at least one of which merged slices or backfilled. Distinct: hash of the serialised history.",
         assumptions: &["as C03", "hook: owning_iovec/verif-hooks (chunk registry, quarantine)"],
         exhaustive_note: None,
-        shards: |t: Tier| t.pick(8, 16),
+        shards: |_t: Tier| 16,
         run,
         replay,
     }
